@@ -322,7 +322,7 @@ class Gen:
         parts = []
         if r.random() < self.p['calls'] * 3:
             for j in range(r.randint(1, 2)):
-                kind = r.choice(['rr', 'lr'])
+                kind = r.choice(self.p.get('helper_kinds', ['rr', 'lr']))
                 hn = f'{name}_h{j}'
                 parts.append(self.helper(hn, kind))
                 self.helper_sigs.append((hn, kind))
